@@ -443,8 +443,8 @@ prop("C04", "proof", ["x_cel_table_memory"] + VDEC_IDS + ["v_read_bytes", "v_par
      "Totality contracts on the real text (Verus): every decoder, the chunk framing, the header / frame loop, the dispatch, the validation stage and the parent computation return Ok or Err for EVERY input with no overflow, index error or reachable panic site; every Kani decoder harness also discharges the automatic no-panic / no-overflow / in-bounds checks for all contents of its payload size. Whole-load totality (zlib, stack depth, allocation under a 4 GiB address-space limit, hangs) is fault enumeration in an isolated child process.", level_note_extra="fault enumeration for the composition")
 prop("C05", "proof", ["v_frame_image_api", "v_cel_image_api", "v_tilemap_image_api", "v_tilesets_get", "v_file_tilemap", "v_from_vec", "v_parseinfo_validate", "v_celsdata_new", "v_parseinfo_new", "v_tilesets_validate", "v_celsdata_validate", "v_rawcel_validate", "v_imagecontent_validate", "v_layersdata_validate", "v_write_cel", "v_frame_image", "v_layer_image", "v_validate_indexed", "v_rawpixels_validate", "v_indexed_as_rgba", "v_dec_tilemap", "v_dec_tileset", "v_tileset_wf_preserved", "v_tileset_image", "v_tileset_tile_image", "v_tilesize_pixels_per_tile", "v_parse_raw_cel", "v_parse_compressed_cel", "v_take_bytes", "v_unzip", "v_output_size", "v_from_bytes", "v_from_raw", "v_from_compressed", "v_tiles_unzip", "v_write_raw_cel", "v_write_tilemap_cel", "v_tile_slice", "v_tilemap_tile", "v_tilemap_lookup", "v_tile_offsets", "v_is_visible", "v_pixels_per_tile", "k_validate_indexed", "k_indexed_as_rgba", "k_tileset_head_34", "k_tileset_head_44", "x_usable_after_load"],
      "Assume/guarantee chain on the real text (Verus, unbounded; DESIGN 10.7): the validation stage (ParseInfo::validate, CelsData::validate, RawCel::validate, LayersData::validate, TilesetsById::validate, from_vec) is proved to deliver exactly the preconditions under which frame_image / write_cel / layer_image / the rasterisers / tile lookups / AsepriteFile::tilemap / the image accessors are proved panic-free (their 'should have been caught by validate' sites are unreachable). The pixel side of the chain is contracts too: take_bytes / unzip return exactly the declared number of bytes or fail (real text over a trusted model of Read / flate2), from_raw / from_compressed / Tiles::unzip deliver exactly the declared number of pixels / tiles, parse_raw_cel / parse_compressed_cel therefore width x height pixels, Tileset::parse_chunk count x height x width pixels, validation preserves that (lemma), and under it Tileset::image / tile_image cannot overflow or hit an expect() and have their documented sizes. The correspondence between units, the chunks_exact / flat_map iterator chains (trusted shims) and clone_as_image_rgba are exercised by fault enumeration: every loadable corrupted file is driven through every accessor.")
-prop("C06", "proof", ["v_indexed_as_rgba", "v_gray_into_rgba", "v_is_background", "v_validate_indexed", "v_parse_raw_cel", "v_parse_compressed_cel", "v_take_bytes", "v_unzip", "v_output_size", "v_from_bytes", "v_from_raw", "v_from_compressed", "v_gray_new", "v_read_rgba", "v_rawpixels_validate", "v_dec_cel", "v_dec_cel_content", "v_dec_cel_common", "v_dec_image_size", "v_pixel_count", "v_cel_is_empty", "v_cel_frame", "v_cel_layer", "v_celsdata_cel"] + PIX + ["k_cel_chunk_15", "k_cel_chunk_17", "k_cel_chunk_18", "k_cel_raw_rgba_28", "k_cel_raw_gray_24", "k_cel_raw_indexed_23", "v_write_raw_cel", "x_frames_vs_spec", "x_roundtrip_structure", "x_neutral_encodings"],
-     "Pixel conversions proved for all values; RawPixels::from_bytes / from_raw / from_compressed (RGBA verbatim, (value, alpha) pairs, indices; exactly the declared pixel count from exactly those bytes) and the per-pixel constructors are Verus contracts on the real text for every length (the chunks_exact chains are trusted shims); cel header / raw payload decode additionally on fixed sizes with Kani; placement + alpha scaling is the Verus rasteriser contract; zlib storage, linked cels and the transparent-index rule end-to-end are bounded-exec against the composition spec.")
+prop("C06", "proof", ["v_indexed_as_rgba", "v_gray_into_rgba", "v_is_background", "v_validate_indexed", "v_parse_raw_cel", "v_parse_compressed_cel", "v_take_bytes", "v_unzip", "v_output_size", "v_from_bytes", "v_from_raw", "v_from_compressed", "v_gray_new", "v_read_rgba", "v_rawpixels_validate", "v_dec_cel", "v_dec_cel_content", "v_dec_cel_common", "v_dec_image_size", "v_pixel_count", "v_cel_is_empty", "v_cel_frame", "v_cel_layer", "v_celsdata_cel"] + PIX + ["k_cel_chunk_15", "k_cel_chunk_17", "k_cel_chunk_18", "k_cel_raw_rgba_28", "k_cel_raw_gray_24", "k_cel_raw_indexed_23", "k_normal_alpha", "k_normal_r", "k_normal_g", "k_normal_b", "k_blender", "v_write_raw_cel", "x_frames_vs_spec", "x_roundtrip_structure", "x_neutral_encodings"],
+     "Pixel conversions proved for all values; 'placed verbatim on a transparent canvas' rests on blend::normal, whose equality with Aseprite's rgba_blender_normal on ALL inputs (incl. the RGB of fully transparent pixels, which the executed image comparisons deliberately canonicalise) and the wrapper's transparent-backdrop rule are Kani contracts listed here as well; RawPixels::from_bytes / from_raw / from_compressed (RGBA verbatim, (value, alpha) pairs, indices; exactly the declared pixel count from exactly those bytes) and the per-pixel constructors are Verus contracts on the real text for every length (the chunks_exact chains are trusted shims); cel header / raw payload decode additionally on fixed sizes with Kani; placement + alpha scaling is the Verus rasteriser contract; zlib storage, linked cels and the transparent-index rule end-to-end are bounded-exec against the composition spec.")
 prop("C07", "exploration", ["v_read_aseprite", "v_parse_frame", "v_celsdata_add_cel", "v_take_bytes", "v_from_raw", "v_read_bytes", "k_parse_chunk_type", "k_layer_chunk_24", "k_tileset_head_44", "x_neutral_encodings", "x_cel_order_irrelevant"],
      "Mostly glue and zlib: bounded exploration over seeded models x ~30 encoding choices; contract part: ignorable chunk codes map to the three ignorable kinds (all u16), trailing payload bytes do not change a decoder's result (layer / tileset shapes with slack bytes; Verus: take_bytes / from_raw succeed whatever follows the declared bytes).")
 prop("C08", "proof", ["v_tilemap_image_api", "v_tileset_strip_stacked", "v_tileset_image", "v_tileset_tile_image", "v_tileset_getters", "v_tilesets_get", "v_tilesets_add", "v_file_tilemap", "v_write_tilemap_cel", "v_tiles_unzip", "v_tile_new", "v_dec_tilemap", "v_dec_bitmask", "v_dec_tileset", "k_tile_parse", "k_tile_bitmask_header", "k_tilemap_bits", "k_pixels_per_tile", "v_tilemap_tile", "v_tilemap_lookup", "v_tile_offsets", "v_tile_slice", "v_pixels_per_tile", "v_write_tilemap_cel", "x_tilemap_views"],
